@@ -140,7 +140,19 @@ class C11(Check):
                     tgt = norm(stmt.targets[0]) if isinstance(stmt, ast.Assign) else None
                     # the f-string that follows must interpolate the returned name
                     later = [j for j in ast.walk(fn) if isinstance(j, ast.JoinedStr) and j.lineno > c.lineno]
-                    used = tgt is not None and any(any(isinstance(v, ast.FormattedValue) and norm(v.value) == tgt for v in j.values) for j in later)
+                    later = sorted(later, key=lambda j: j.lineno)
+                    tmpl = next((j for j in later if any(isinstance(v, ast.FormattedValue) and norm(v.value) == tgt for v in j.values)), None)
+                    used = tgt is not None and tmpl is not None
+                    obj = norm(c.args[-1]).rsplit(".", 1)[0] if c.args and norm(c.args[-1]).endswith(".args") else None
+                    if used and obj is not None:
+                        vals = [norm(v.value) for v in tmpl.values if isinstance(v, ast.FormattedValue)]
+                        argvals = [x for x in vals if f"{obj}.args" in x]
+                        if argvals != [f"{obj}.args"]:
+                            self.violated("K1", MOD, fname, f"call-args-of-{obj}@{fname}", tmpl,
+                                          f"the builder call for the definition registered with `{obj}.args` is emitted with args `{argvals}`: the generated function is called with other arguments than it was defined with",
+                                          witness="a computed coefficient / rate law with two arguments is rebuilt with its arguments swapped")
+                        else:
+                            self.holds("K1", MOD, fname, f"call-args-of-{obj}@{fname}:{c.lineno - fn.lineno}", tmpl, f"emitted with args={{{obj}.args}}, the list the definition was registered with")
                     cons = f"registered-name-used@{fname}:{norm(c.args[1])[:40] if len(c.args) > 1 else ''}"
                     if used:
                         self.holds("K1", MOD, fname, cons, c, f"the emitted call refers to `{tgt}`, the name the definition was registered under")
@@ -275,6 +287,7 @@ class C11(Check):
             Variant("same-accepts-equal-expressions", MOD, "_register_fn", "        if len(a[1]) != len(b[1]):\n            return False", "        if len(a[1]) != len(b[1]):\n            return False\n        if a[0] == b[0]:\n            return True", expect="K1|", quick=True),
             Variant("separate-init-table", MOD, GEN, "variable_source.append(_codegen_variable(k, var, functions=functions))", "variable_source.append(_codegen_variable(k, var, functions=init_functions))", expect="K1|", quick=True),
             Variant("parse-cache-by-qualname", "meta/source_tools.py", "", "def fn_to_sympy(", "_FN_DEF_CACHE: dict = {}\n\n\ndef _get_fn_ast_cached(fn):\n    key = (str(getattr(fn, '__module__', '')), str(getattr(fn, '__qualname__', fn)))\n    if (fn_def := _FN_DEF_CACHE.get(key)) is None:\n        fn_def = _FN_DEF_CACHE[key] = get_fn_ast(fn)\n    return fn_def\n\n\ndef fn_to_sympy(", expect="K5|", quick=True),
+            Variant("coefficient-args-reversed", MOD, GEN, "args={stoich.args!r}", "args={stoich.args[::-1]!r}", expect="K1|"),
             Variant("reaction-uses-unregistered-name", MOD, GEN, "fn={rxn_fn_name}", "fn={fn.fn_name}", expect="K1|"),
             Variant("value-keyword-again", MOD, "_codegen_variable", "initial_value={value}, unit=", "value={value}, unit=", expect="K2|", quick=True),
             Variant("derived-keyword-typo", MOD, GEN, "fn={fn_name},\\n                args={fn.args},\\n            )')", "function={fn_name},\\n                args={fn.args},\\n            )')", expect="K2|"),
